@@ -411,4 +411,89 @@ theorem evP_shape (I : FIface Raw Inst Ctx Val Hdr Err S) :
               | nil => exact hskip
               | cons x xs => exact ih _ hin f hf _
 
+theorem fault?_isSome (kind : Raw → RowKind) :
+    ∀ (t : PTree Raw) (bt : BlockType), WkP kind bt t → bt ≠ .root → t.fault?.isSome = true := by
+  intro t
+  induction t with
+  | done its => intro bt h hbt; exact absurd h.1 hbt
+  | fault its f rest => intro bt h hbt; rfl
+  | open_ its isFor b inner ih =>
+    intro bt h hbt
+    exact ih _ h.2.2 (by cases isFor <;> simp)
+
+
+theorem evP_stop (I : FIface Raw Inst Ctx Val Hdr Err S) :
+    ∀ (t : PTree Raw) (c : Ctx) (x : Stop Err), evP I c t = .error x →
+      (∃ e, x = .err e) ∨ (∃ f, x = .fault f) := by
+  have hskip : ∀ (t : PTree Raw), (∃ e, skipP I t = .err e) ∨ (∃ f, skipP I t = .fault f) := by
+    intro t
+    induction t with
+    | done its => exact Or.inr ⟨_, rfl⟩
+    | fault its f rest =>
+      simp only [skipP]
+      cases firstFail I (flattenFL its ++ List.take 1 rest) with
+      | some x => exact Or.inl ⟨_, rfl⟩
+      | none => exact Or.inr ⟨_, rfl⟩
+    | open_ its isFor b inner ih =>
+      simp only [skipP]
+      cases firstFail I (flattenFL its ++ [b]) with
+      | some x => exact Or.inl ⟨_, rfl⟩
+      | none => exact ih
+  intro t
+  induction t with
+  | done its =>
+    intro c x h
+    simp only [evP] at h
+    cases hE : evFs I c its with
+    | error e => simp [hE] at h; exact Or.inl ⟨e, h.symm⟩
+    | ok es => simp [hE] at h
+  | fault its f rest =>
+    intro c x h
+    simp only [evP] at h
+    cases hE : evFs I c its with
+    | error e => simp [hE] at h; exact Or.inl ⟨e, h.symm⟩
+    | ok es =>
+      simp only [hE] at h
+      cases rest with
+      | nil => simp at h; exact Or.inr ⟨f, h.symm⟩
+      | cons r rs =>
+        simp only [] at h
+        cases hi : I.inst c r with
+        | error e => simp [hi] at h; exact Or.inl ⟨e, h.symm⟩
+        | ok i => simp [hi] at h; exact Or.inr ⟨f, h.symm⟩
+  | open_ its isFor b inner ih =>
+    intro c x h
+    simp only [evP] at h
+    cases hE : evFs I c its with
+    | error e => simp [hE] at h; exact Or.inl ⟨e, h.symm⟩
+    | ok es =>
+      simp only [hE] at h
+      cases hi : I.inst c b with
+      | error e => simp [hi] at h; exact Or.inl ⟨e, h.symm⟩
+      | ok i =>
+        simp only [hi] at h
+        have hsk : ∀ y, (Except.error (skipP I inner) : Res Err (List (Ev Inst Hdr))) = .error y →
+            (∃ e, y = .err e) ∨ (∃ f, y = .fault f) := by
+          intro y hy
+          injection hy with hy
+          subst hy
+          exact hskip inner
+        cases hinc : I.includeIf i with
+        | false => simp [hinc] at h; exact hsk x (by rw [h])
+        | true =>
+          simp only [hinc, if_true] at h
+          cases isFor with
+          | false => simp at h; exact ih c x h
+          | true =>
+            simp only [if_true] at h
+            cases hv : I.loopVars i with
+            | none => simp [hv] at h; exact Or.inl ⟨_, h.symm⟩
+            | some vi =>
+              obtain ⟨v, idx⟩ := vi
+              simp only [hv] at h
+              cases hl : I.iterList i with
+              | nil => simp [hl] at h; exact hsk x (by rw [h])
+              | cons y ys => simp only [hl] at h; exact ih _ x h
+
+
 end Rpft.SugarFlat
